@@ -114,6 +114,15 @@ def judge_geometry(p):
                 out.append(("triangle_spot_on_surface", 0.0, float(np.max(np.abs(r1)))))
             if not np.all(np.abs(r2) <= 1e-9):
                 out.append(("triangle_emergence_angle", 0.0, float(np.max(np.abs(r2)))))
+            # the path length RELATIVE to itself, from the cancellation-free form of the same triangle (law of sines):
+            # for a detector near the ground the paths are short compared with the Earth's radius, and a form that
+            # subtracts squares of order R^2 is off by R^2 eps / L^2
+            with np.errstate(all="ignore"):
+                L_ref = (TR.R + p["alt"]) * np.cos(th + be) / np.cos(be)
+            okl = np.isfinite(L_ref) & (L_ref > 0)
+            if okl.any() and not np.all(np.abs(Lp[okl] - L_ref[okl]) <= 1e-8 * L_ref[okl]):
+                i = int(np.argmax(np.where(okl, np.abs(Lp - L_ref) / np.where(okl, L_ref, 1.0), 0.0)))
+                out.append(("triangle_path_length", float(L_ref[i]), float(Lp[i])))
             if not np.all((be >= 0) & (be < blim + 1e-12) & (th < aH + 1e-12)):
                 out.append(("kept_within_limits", [blim, aH], [float(be.max()), float(th.max())]))
     info = dict(n_kept=int(len(vt)), n_below=int(below.sum()), binds="42" if blim >= math.radians(42.0) - 1e-12 else "limb")
@@ -384,6 +393,12 @@ def run(ctx):
         for c_, e, o in v:
             ctx.violation(c_, {"kind": "geo", "p": q}, e, o)
     ctx.cov["zero_limb_altitudes"] = len(zero_limb)
+    # detectors near the ground (mountain top, tower, a few metres): short, steep paths
+    low = [dict(ra=ra, dec=dec, date="2022-06-14T11:52:00", T=86400.0, N=48, lat=0.1, lon=0.2, alt=a, limb=0.8 * math.degrees(TR.horizon_nadir(a))) for a in (3.0, 0.3, 0.03, 0.005) for ra, dec in ((1.0, -0.3), (4.0, 0.4))]
+    for q, (v, info) in zip(low, par.pmap(judge_geometry, low)):
+        ctx.tick(q["N"], ("geo_low_altitude", q["alt"], info.get("n_kept", 0) > 0))
+        for c_, e, o in v:
+            ctx.violation(c_, {"kind": "geo", "p": q}, e, o)
     ctx.sample({"kind": "geometry", "p": ps[len(ps) // 3]})
     # dark-sky truth table
     dates = ["2022-06-14T11:52:00", "2022-05-30T11:30:00"] + (["2022-03-21T00:00:00", "2022-12-21T18:00:00"] if tier == "thorough" else [])
